@@ -526,6 +526,14 @@ def gen(seed, run, tier='quick'):
                                    2 if hr.random() < 0.3 else 1])
         for _ in range(hr.choice([0, 0, 1, 2, 4])):
             steps.insert(hr.randrange(len(steps) + 1), ['evict'])
+        # other operations of the API in between (quantize with explicit
+        # rounding modes - also of amount zero -, round, convert, allocate,
+        # add, compare): they must not influence any product / quotient
+        for _ in range(hr.choice([0, 0, 2, 4])):
+            if syms:
+                steps.insert(hr.randrange(len(steps) + 1),
+                             ['other', hr.randrange(6), hr.choice(syms),
+                              hr.choice(syms)])
         # all probes once more at the very end
         for p in probes:
             if hr.random() < 0.5:
@@ -651,6 +659,29 @@ def run_world(arg):
         except Exception as e:      # noqa
             return ['unobservable', type(e).__name__], r
 
+    def other_operation(k, s1, s2):
+        from decimalfp import ROUNDING
+        u, v = env.units.get(s1), env.units.get(s2)
+        if u is None or v is None:
+            return 'operand_missing'
+        try:
+            if k == 0:
+                (0 * u).quantize(1 * u, ROUNDING.ROUND_UP)
+            elif k == 1:
+                (Decimal('7.377') * u).quantize(Decimal('0.5') * u,
+                                                ROUNDING.ROUND_FLOOR)
+            elif k == 2:
+                round(Decimal('17.375') * u, 1)
+            elif k == 3:
+                (3 * u).convert(v)
+            elif k == 4:
+                (10 * u).allocate([1, 2, 3])
+            else:
+                (3 * u) + (2 * v) < (5 * u)
+        except Exception as e:      # noqa
+            return 'exc:' + type(e).__name__
+        return 'ok'
+
     out = []
     for st in steps:
         if st[0] == 'decl':
@@ -668,6 +699,8 @@ def run_world(arg):
             out.append(['evict', info.get('evicted', 0)])
         elif st[0] == 'hashseed':
             out.append(['hashseed', os.environ.get('PYTHONHASHSEED')])
+        elif st[0] == 'other':
+            out.append(['other', other_operation(st[1], st[2], st[3])])
         else:
             p = probes[st[1]]
             o1, r1 = evaluate(p)
@@ -733,6 +766,9 @@ def judge(h):
                     bump(pr, 'noise_declaration_accepted')
             elif rec[0] == 'evict':
                 bump(faults, 'memo_eviction')
+            elif rec[0] == 'other':
+                if rec[1] != 'operand_missing':
+                    bump(faults, 'other_api_operation_in_between')
             elif rec[0] == 'hashseed':
                 if rec[1] != str(hs):
                     raise core.HarnessError(
